@@ -74,6 +74,11 @@ func h1(m dsl.Matcher) {
 func h2(m dsl.Matcher) {
 	m.MatchComment("TODO").Report("h2 todo")
 }
+
+func h3(m dsl.Matcher) {
+	// a suggestion whose replacement can be empty (delete the span) or not
+	m.MatchComment("FIXME(?P<rest>.*)").Suggest("$rest")
+}
 `
 
 const c19R3 = `package gorules
@@ -89,10 +94,10 @@ const c19Bad = "package gorules\n\nfunc broken( {\n"
 
 var c19Target = []string{
 	"package target\n\nfunc probe(x int) int { return x }\n\nfunc other(s string) string { return s }\n\nfunc f() {\n\tprobe(1)\n\tother(\"a\")\n\t_ = probe(3) + 1\n}\n",
-	"package target\n\n// TODO: second file\nfunc g() int {\n\tprobe(22)\n\treturn 7\n}\n",
+	"package target\n\n// TODO: second file\nfunc g() int {\n\tprobe(22) // FIXME\n\t// FIXME later\n\treturn 7\n}\n",
 }
 
-var c19Groups = []string{"g1", "g2", "g3", "h1", "h2", "g9", "e", "nope"}
+var c19Groups = []string{"g1", "g2", "g3", "h1", "h2", "h3", "g9", "e", "nope"}
 
 type c19Config struct {
 	Rules, E, Enable, Disable, GoVer string
